@@ -23,6 +23,13 @@ Families
             vectors), too few / too many elements, band >= dim: every algorithm must reject.
   malformed_dim_obs   (known finding F9, include_f9) dim != number of observations inside <obs> and
             <height-differences>: not checked by GKFparser::finish_obs / finish_hdiffs.
+  ysign     inconsistent systems (axes-xy x angles of opposite handedness: gama-local mirrors y internally,
+            LocalNetwork::change_y_signs_for_inconsistent_system_) x <vectors> clusters with >= 2 vectors /
+            <coordinates> clusters with >= 2 points x FULL (or band >= 3) covariance matrices with non-zero
+            cov(dy_i,dy_j) / cov(y_i,y_j): the same file with angles="left-handed" and "right-handed" must be adjusted
+            identically (only coordinates, coordinate differences and distances are observed), and, when all
+            observations are linear, must reproduce the exact rational generalised least squares solution with
+            W = C^-1 (normal equations solved in Fractions).
   tiny      (include_tiny) valid clusters whose cofactors  cov / sigma-apr^2  are below the ABSOLUTE
             tolerance 1e-14 of BlockDiagonal::cholDec; Homogenization::run ignores its return value.
 
@@ -55,7 +62,8 @@ GON = 200.0 / math.pi
 
 SITE = {"diag": "GKFparser::finish_cov", "whiten": "LocalNetwork::prepareProjectEquations",
         "transform": "LocalNetwork::prepareProjectEquations", "excluded": "Cluster::activeCov",
-        "malformed": "GKFparser::process_cov", "tiny": "Homogenization::run"}
+        "malformed": "GKFparser::process_cov", "tiny": "Homogenization::run",
+        "ysign": "LocalNetwork::change_y_signs_for_inconsistent_system_"}
 
 
 # ------------------------------------------------------------------------------------------ numbers
@@ -179,7 +187,8 @@ def _cluster_xml(cl):
     elif k == "coords":
         out.append("<coordinates>")
         for it in cl["items"]:
-            out.append(f'<point id="{it["id"]}" x="{_num(it["x"])}" y="{_num(it["y"])}" />')
+            out.append(f'<point id="{it["id"]}" x="{_num(it["x"])}" y="{_num(it["y"])}"'
+                       + (f' z="{_num(it["z"])}"' if "z" in it else "") + " />")
         out.append(cov)
         out.append("</coordinates>")
     elif k == "vectors":
@@ -192,12 +201,12 @@ def _cluster_xml(cl):
     return "\n".join(out)
 
 
-def _gkf(net, clusters, description, extra_points=(), params=None):
+def _gkf(net, clusters, description, extra_points=(), params=None, attrs=None):
     par = dict(net["params"])
     if params:
         par.update(params)
     out = ['<?xml version="1.0" ?>', '<gama-local xmlns="http://www.gnu.org/software/gama/gama-local">',
-           "<network>", f"<description>{description}</description>",
+           "<network" + "".join(f' {k}="{v}"' for k, v in (attrs or {}).items()) + ">", f"<description>{description}</description>",
            "<parameters " + " ".join(f'{k}="{_num(v) if not isinstance(v, str) else v}"' for k, v in par.items()) + " />",
            "<points-observations>"]
     for p in list(net["points"]) + list(extra_points):
@@ -671,6 +680,142 @@ def gen_malformed_dim_obs(rng, kind):
     return _case("malformed_dim_obs", "F9", kind, variants, expect="reject-parser", n=n, band=1)
 
 
+LEFT_AXES = ("ne", "sw", "es", "wn")       # left-handed coordinate systems (gama's default is "ne")
+RIGHT_AXES = ("en", "nw", "se", "ws")
+
+
+def _frac_solve(M, B):
+    """exact Gauss-Jordan: inv(M) * B for Fraction matrices (M square, nonsingular)"""
+    m = len(M)
+    a = [[Fr(x) for x in M[i]] + [Fr(x) for x in B[i]] for i in range(m)]
+    for c in range(m):
+        p = next(r for r in range(c, m) if a[r][c] != 0)
+        a[c], a[p] = a[p], a[c]
+        d = a[c][c]
+        a[c] = [v / d for v in a[c]]
+        for r in range(m):
+            if r != c and a[r][c] != 0:
+                f = a[r][c]
+                a[r] = [x - f * y for x, y in zip(a[r], a[c])]
+    return [row[m:] for row in a]
+
+
+def _gls_reference(rows, l, C, m0):
+    """exact generalised least squares  min (Ax-l)' C^-1 (Ax-l):  x, and [pvv] = m0^2 v' C^-1 v with v in the
+    units of C (mm), A in m/m, l in m"""
+    n, u = len(rows), len(rows[0])
+    WA = _frac_solve(C, rows)
+    Wl = [r[0] for r in _frac_solve(C, [[v] for v in l])]
+    N = [[sum(rows[k][i] * WA[k][j] for k in range(n)) for j in range(u)] for i in range(u)]
+    rhs = [[sum(rows[k][i] * Wl[k] for k in range(n))] for i in range(u)]
+    x = [r[0] for r in _frac_solve(N, rhs)]
+    v = [(sum(rows[r][j] * x[j] for j in range(u)) - l[r]) * 1000 for r in range(n)]
+    Wv = [r[0] for r in _frac_solve(C, [[t] for t in v])]
+    return x, Fr(m0) ** 2 * sum(v[i] * Wv[i] for i in range(n))
+
+
+def gen_ysign(rng, which):
+    """inconsistent axes/angles x correlated <vectors> / <coordinates> clusters with covariances between y-type components"""
+    sub = ("vectors-linear", "coords-linear", "coords+dist", "vectors-linear")[which % 4]
+    axes = rng.choice(LEFT_AXES + RIGHT_AXES)
+    sigma = rng.choice((1, 2, 5, 10))
+    params = {"sigma-apr": sigma, "conf-pr": 0.95, "tol-abs": 1000, "sigma-act": rng.choice(("aposteriori", "apriori"))}
+    dims = ("x", "y", "z") if sub == "vectors-linear" or rng.random() < 0.3 else ("x", "y")
+    if sub == "coords+dist":
+        dims = ("x", "y")
+    nd = len(dims)
+    k = rng.randint(2, 3)
+    free = [f"P{i + 1}" for i in range(k)]
+    fixed = ["A", "B", "C"] if sub == "coords+dist" else ["A"]
+    true = {}
+    for i in fixed + free:
+        true[i] = {c: _dec(rng.uniform(100, 900), 3) for c in dims}
+    pts = [dict({"id": i, "fix": "".join(dims)}, **true[i]) for i in fixed]
+    approx = {i: {c: _dec(float(true[i][c]) + rng.uniform(-0.02, 0.02), 3) for c in dims} for i in free}
+    pts += [dict({"id": i, "adj": "".join(dims)}, **approx[i]) for i in free]
+    col = {(p, c): j for j, (p, c) in enumerate((p, c) for p in free for c in dims)}
+    rows, l, items = [], [], []
+    if sub == "vectors-linear":
+        chain = ["A"] + free
+        edges = list(zip(chain, chain[1:]))
+        for _ in range(rng.randint(1, 2)):
+            a, b = rng.sample(["A"] + free, 2)
+            edges.append((a, b))
+        rng.shuffle(edges)
+        for a, b in edges:
+            d = {c: _dec(float(true[b][c] - true[a][c]) + rng.gauss(0, 3e-3), 5) for c in dims}
+            items.append({"from": a, "to": b, "dx": d["x"], "dy": d["y"], "dz": d["z"]})
+            for c in dims:
+                r, v = [Fr(0)] * len(col), d[c]
+                for p, sgn in ((b, 1), (a, -1)):
+                    if (p, c) in col:
+                        r[col[(p, c)]] = Fr(sgn)
+                    else:
+                        v -= sgn * true[p][c]
+                rows.append(r)
+                l.append(v)
+        kind = "vectors"
+    else:
+        obs_pts = list(free) + [rng.choice(free) for _ in range(rng.randint(1, 2))]      # redundancy: dof > 0
+        rng.shuffle(obs_pts)
+        for p in obs_pts:
+            d = {c: _dec(float(true[p][c]) + rng.gauss(0, 3e-3), 4) for c in dims}
+            items.append(dict({"id": p}, **d))
+            for c in dims:
+                r = [Fr(0)] * len(col)
+                r[col[(p, c)]] = Fr(1)
+                rows.append(r)
+                l.append(d[c])
+        kind = "coords"
+    n = len(rows)
+    ycomp = [i for i in range(n) if i % nd == 1]
+    dominant = rng.random() < 0.5
+    for _ in range(200):
+        band = n - 1 if rng.random() < 0.6 else rng.randint(nd, n - 1)
+        if dominant:
+            # strictly diagonally dominant (hence SPD, and still SPD with any off-diagonal signs changed: a wrong sign
+            # rule then shows as silently different numbers, not as a refused matrix)
+            C = [[0] * n for _ in range(n)]
+            for i in range(n):
+                for j in range(i + 1, min(n, i + band + 1)):
+                    C[i][j] = C[j][i] = rng.choice((-3, -2, -1, 0, 1, 2, 3)) if j - i < band else rng.choice((-2, -1, 1, 2))
+            for i in range(n):
+                C[i][i] = sum(abs(x) for x in C[i]) + rng.randint(2, 6)
+        else:
+            sc = [rng.choice((2, 3, 4)) for _ in range(n)]
+            _, C = _spd(rng, n, band, sc)
+        if any(C[i][j] != 0 for i in ycomp for j in ycomp if i < j):
+            break
+    cl = {"kind": kind, "items": items, "cov": C, "band": band}
+    clusters = [cl]
+    if sub == "coords+dist":
+        for s_ in fixed:
+            its = []
+            for p in free:
+                sd = rng.choice((2, 3, 5))
+                dist = math.hypot(float(true[p]["x"] - true[s_]["x"]), float(true[p]["y"] - true[s_]["y"]))
+                its.append({"t": "distance", "to": p, "val": _dec(dist + rng.gauss(0, sd * 1e-3), 5), "stdev": sd})
+            clusters.append({"kind": "obs", "from": s_, "items": its})
+        if rng.random() < 0.5:
+            clusters.reverse()
+    net = {"params": params, "points": pts}
+    reference = None
+    if sub != "coords+dist":
+        x, pvv = _gls_reference(rows, l, C, sigma)
+        reference = {"adj": {p: {c: float(x[col[(p, c)]]) for c in dims} for p in free}, "pvv": float(pvv)}
+    variants = []
+    for angles in ("left-handed", "right-handed"):
+        lh_axes = axes in LEFT_AXES
+        consistent = lh_axes == (angles == "left-handed")
+        variants.append(_var(f"{axes}/{angles}" + ("" if consistent else "*"),
+                             _gkf(net, clusters, f"C10 ysign {sub} axes={axes} angles={angles} n={n} band={band}"
+                                  + (" (consistent)" if consistent else " (inconsistent: y mirrored internally)"),
+                                  attrs={"axes-xy": axes, "angles": angles}), consistent=consistent))
+    ycov = sum(1 for i in ycomp for j in ycomp if i < j and C[i][j] != 0)
+    return _case("ysign", sub + ("/dominant" if dominant else "/LLt"), kind, variants, n=n, band=band, axes=axes, ycov=ycov,
+                 reference=reference)
+
+
 def gen_tiny(rng, which):
     """valid, well conditioned levelling network in which EVERY standard deviation is small relative to sigma-apr
     (all clusters scaled alike, so the weights stay balanced): cofactor pivots cov/sigma-apr^2 < 1e-14"""
@@ -879,9 +1024,29 @@ def evaluate(case, res):
             ev["dpvv"] = max(ev["dpvv"], dp)
         if abs(p1 - p0) > PVV_ATOL + PVV_RTOL * max(abs(p0), abs(p1)):
             worst.append((dp, f"{n}/{a}: [pvv] = {p1!r} differs from {rn}/{ra} {p0!r} (relative {dp:.3e})"))
+    refsol = (case.get("meta") or {}).get("reference")
+    if refsol:
+        # independent exact solution of the generalised least squares problem with W = C^-1
+        for n, a, r in runs:
+            for pid, d in refsol["adj"].items():
+                for c, x in d.items():
+                    v = r["adj"].get(pid, {}).get(c)
+                    if v is None:
+                        worst.append((float("inf"), f"{n}/{a}: coordinate {pid}.{c} not adjusted"))
+                        continue
+                    dv = abs(v - x)
+                    ev["dcoord"] = max(ev["dcoord"], dv)
+                    if dv > COORD_ATOL + COORD_RTOL * abs(x - r["approx"].get(pid, {}).get(c, x)):
+                        worst.append((dv, f"{n}/{a}: {pid}.{c} = {v!r} differs from the exact weighted least squares "
+                                          f"solution (W = C^-1) {x!r} by {dv:.3e} m"))
+            p1, p0 = r["pvv"], refsol["pvv"]
+            dp = abs(p1 - p0) / max(abs(p0), abs(p1), 1e-300) if (p1 or p0) else 0.0
+            if abs(p1 - p0) > PVV_ATOL + PVV_RTOL * max(abs(p0), abs(p1)):
+                ev["dpvv"] = max(ev["dpvv"], dp)
+                worst.append((dp, f"{n}/{a}: [pvv] = {p1!r} differs from the exact v'C^-1 v sigma-apr^2 = {p0!r} (relative {dp:.3e})"))
     if worst:
-        dev_algs = sorted({w[1].split(":")[0].split("/")[1] for w in worst})
-        dev_vars = sorted({w[1].split(":")[0].split("/")[0] for w in worst})
+        dev_algs = sorted({w[1].split(":")[0].rsplit("/", 1)[1] for w in worst})
+        dev_vars = sorted({w[1].split(":")[0].rsplit("/", 1)[0] for w in worst})
         ev.update(status="fail", what=f"equivalent formulations adjusted differently (family {case['family']}/{case['sub']}, "
                                       f"{case['kind']}; deviating variants {dev_vars}, algorithms {dev_algs})",
                   detail="\n".join(w[1] for w in worst[:12]))
@@ -933,6 +1098,9 @@ def generate(rng, n_cases, include_f9=True, include_tiny=True):
         else:
             c = gen_tiny(rng, k + off)
         cases.append(c)
+    # appended after the scheduled families, so that their draws do not depend on this family
+    for k in range(max(6, n_cases // 5)):
+        cases.append(gen_ysign(rng, k + off))
     return cases
 
 
